@@ -63,6 +63,11 @@ pub struct Interpreter<TStdlib: Stdlib, TStdIn: Input, TStdOut: Printer, TLpt1: 
     /// time of the GOSUB. RETURN can be inside a FOR loop or a SELECT CASE of the subroutine.
     go_sub_depths: Vec<(usize, usize)>,
 
+    /// For every active function/sub call, the number of GOSUBs that were pending when it
+    /// was entered: RETURN must not consume the GOSUBs of the caller, and the GOSUBs a
+    /// call leaves behind are dropped when it returns.
+    go_sub_bases: Vec<usize>,
+
     /// Holds the current call stack
     stacktrace: Vec<Position>,
 
@@ -300,6 +305,7 @@ impl<TStdlib: Stdlib, TStdIn: Input, TStdOut: Printer, TLpt1: Printer>
             return_address_stack: vec![],
             go_sub_address_stack: vec![],
             go_sub_depths: vec![],
+            go_sub_bases: vec![],
             register_stack: vec![Registers::new()],
             stacktrace: vec![],
             file_manager: FileManager::new(),
@@ -485,6 +491,7 @@ impl<TStdlib: Stdlib, TStdIn: Input, TStdOut: Printer, TLpt1: Printer>
             }
             Instruction::PushRet(address) => {
                 self.return_address_stack.push(*address);
+                self.go_sub_bases.push(self.go_sub_address_stack.len());
                 // the function/sub that is being called gets its own statement snapshot
                 self.statement_snapshots.push(StatementSnapshot::default());
                 self.take_statement_snapshot();
@@ -492,6 +499,10 @@ impl<TStdlib: Stdlib, TStdIn: Input, TStdOut: Printer, TLpt1: Printer>
             Instruction::PopRet => {
                 let address = self.return_address_stack.pop().unwrap();
                 ctx.opt_next_index = Some(address);
+                if let Some(base) = self.go_sub_bases.pop() {
+                    self.go_sub_address_stack.truncate(base);
+                    self.go_sub_depths.truncate(base);
+                }
                 if self.statement_snapshots.len() > 1 {
                     self.statement_snapshots.pop();
                 }
@@ -502,7 +513,7 @@ impl<TStdlib: Stdlib, TStdIn: Input, TStdOut: Printer, TLpt1: Printer>
                     .push((self.register_stack.len(), self.value_stack.len()));
                 ctx.opt_next_index = Some(address_or_label.address());
             }
-            Instruction::Return(opt_address) => match self.go_sub_address_stack.pop() {
+            Instruction::Return(opt_address) => match self.pop_go_sub_address() {
                 Some(address) => {
                     // leave the FOR loops and SELECT CASE blocks of the subroutine
                     if let Some((registers, values)) = self.go_sub_depths.pop() {
@@ -541,6 +552,11 @@ impl<TStdlib: Stdlib, TStdIn: Input, TStdOut: Printer, TLpt1: Printer>
                 // stack and the value stack to the state the place of the label expects.
                 self.context.truncate_states(1);
                 self.return_address_stack.clear();
+                if let Some(base) = self.go_sub_bases.first() {
+                    self.go_sub_address_stack.truncate(*base);
+                    self.go_sub_depths.truncate(*base);
+                }
+                self.go_sub_bases.clear();
                 self.stacktrace.clear();
                 self.print_state_stack.clear();
                 self.var_path_stack.clear();
@@ -719,6 +735,17 @@ impl<TStdlib: Stdlib, TStdIn: Input, TStdOut: Printer, TLpt1: Printer>
         };
         if let Some(last) = self.statement_snapshots.last_mut() {
             *last = snapshot;
+        }
+    }
+
+    /// Takes the most recent pending GOSUB of the current function/sub call
+    /// (or of the main module), if there is one.
+    fn pop_go_sub_address(&mut self) -> Option<usize> {
+        let base = self.go_sub_bases.last().copied().unwrap_or(0);
+        if self.go_sub_address_stack.len() > base {
+            self.go_sub_address_stack.pop()
+        } else {
+            None
         }
     }
 
